@@ -312,6 +312,14 @@ func (b *BloomSearchEngine) Stop(ctx context.Context) error {
 
 	select {
 	case <-done:
+		if ctx.Err() != nil {
+			// ctx expired as well, and select picked this branch at random.
+			// The workers may have exited only because the deadline aborted
+			// their flush work and done-channel delivery, so this is not a
+			// graceful stop: report the deadline like the branch below.
+			b.flushCancel()
+			return fmt.Errorf("shutdown timeout exceeded: %w", ctx.Err())
+		}
 		// Workers finished gracefully
 		stopAfter()
 		return nil
